@@ -433,6 +433,10 @@ func (k Keeper) convertCoinNativeERC20(
 	if balanceToken == nil {
 		return nil, errorsmod.Wrap(types.ErrEVMCall, "failed to retrieve balance")
 	}
+	balanceEscrow := k.BalanceOf(ctx, erc20, contract, types.ModuleAddress)
+	if balanceEscrow == nil {
+		return nil, errorsmod.Wrap(types.ErrEVMCall, "failed to retrieve balance")
+	}
 
 	// Escrow Coins on module account
 	if err := k.bankKeeper.SendCoinsFromAccountToModule(ctx, sender, types.ModuleName, coins); err != nil {
@@ -469,6 +473,23 @@ func (k Keeper) convertCoinNativeERC20(
 			types.ErrBalanceInvariance,
 			"invalid token balance - expected: %v, actual: %v", exp, balanceTokenAfter,
 		)
+	}
+
+	// Check that the escrow was debited by exactly the unescrowed amount
+	if receiver != types.ModuleAddress {
+		balanceEscrowAfter := k.BalanceOf(ctx, erc20, contract, types.ModuleAddress)
+		if balanceEscrowAfter == nil {
+			return nil, errorsmod.Wrap(types.ErrEVMCall, "failed to retrieve balance")
+		}
+
+		expEscrow := big.NewInt(0).Sub(balanceEscrow, tokens)
+
+		if r := balanceEscrowAfter.Cmp(expEscrow); r != 0 {
+			return nil, errorsmod.Wrapf(
+				types.ErrBalanceInvariance,
+				"invalid escrow balance - expected: %v, actual: %v", expEscrow, balanceEscrowAfter,
+			)
+		}
 	}
 
 	// Burn escrowed Coins
